@@ -555,6 +555,8 @@ func runC20(cases string, res *Result) {
 	c20MethodValues(res)
 	c20AfterSandboxedLookups(res)
 	c20AfterPrefixOperators(res)
+	c20StrictAndLenientEngines(res)
+	c20MethodsAreCalledEachTime(res)
 	var knownFinding *Finding
 	pairsSeen := map[string]bool{}
 
